@@ -236,6 +236,7 @@ def run_case(case):
                     pass
             else:
                 B0, T0, u0 = reuse["sch0"]
+                ds = None              # the measured dataset is rebuilt AFTER the first one has died (see below)
                 ds0 = Dataset.from_raw_list(core.Absmap(case["naming"], reuse["D0"]).raw_dataset(reuse["D0"]))
                 ss0 = SS(core.scheme_float(B0, T0, u0))
                 try:
@@ -250,7 +251,7 @@ def run_case(case):
                     pass
                 # the first dataset dies before the measured one is (re)built: object identities may be recycled
                 c0 = None
-                del ds0, ds
+                del ds0
                 ds = Dataset.from_raw_list(am.raw_dataset(case["D"]))
         except Exception as ex:
             rec["out"] = "setup-failed"
